@@ -136,6 +136,8 @@ def op_term(op, it):
         return f"(ORefresh {g_opt(op['uri'], it.uri)})"
     if n == "get_uri_schemes":
         return "OSchemes"
+    if n == "core_schemes":
+        return "OCoreSchemes"
     if n == "as_list":
         return "OAsList"
     if n == "get_items":
